@@ -30,6 +30,10 @@ def corpus_jobs():
     jobs = []
     for f in sorted(glob.glob(os.path.join(lib.VERIF, "corpus", "C07", "*.json"))):
         for c in json.load(open(f)):
+            if c.get("source") == "generate":     # minimised past failures found on generated graphs: replayed exactly (same seed, mode, prune)
+                jobs.append(dict(id=f"corpus:{c['name']}", cfg=c["cfg"], source="generate", tmax=c["tmax"], episodes=c.get("episodes", 2), mode=c["mode"],
+                                 prune=c["prune"], seed=c["seed"]))
+                continue
             for m in MODES:
                 for prune in (False, True):
                     jobs.append(dict(id=f"corpus:{c['name']}:{m}:{int(prune)}", cfg=c["cfg"], source="explicit", graph=c["graph"], episodes=1, mode=m, prune=prune, seed=0))
